@@ -46,6 +46,11 @@ type c26APlayer struct {
 	Server      int    `json:"server"`       // index into Servers, -1 = none
 	ClientProto int    `json:"client_proto"` // protocol of the client connection
 	Proto       int    `json:"proto"`        // protocol of the backend connection
+	// DeadBackend: the player is still in its server's player list but its backend
+	// connection is already gone (after disconnect(), before the play session's
+	// Disconnected() removed it). Only generated for Forward requests and never
+	// for the requester.
+	DeadBackend bool `json:"dead_backend,omitempty"`
 }
 
 type c26ACase struct {
@@ -268,6 +273,9 @@ func c26ARun(c c26ACase) verifkit.Result {
 			backend = c26ANewConn(p.Proto, &net.TCPAddr{IP: net.ParseIP(c26AServerHost(p.Server)), Port: c26AServerPort(p.Server)})
 			sc := newServerConnection(servers[p.Server], nil, pl)
 			sc.connection = backend
+			if p.DeadBackend {
+				sc.connection = nil
+			}
 			sc.completedJoin.Store(true)
 			pl.setConnectedServer(sc)
 			servers[p.Server].players.add(pl)
@@ -299,6 +307,12 @@ func c26ARun(c c26ACase) verifkit.Result {
 	msg := &plugin.Message{Channel: c26AChan(c.Players[c.Requester].Proto), Data: c.request()}
 
 	labels := []string{"sub-" + c.Sub}
+	for _, p := range c.Players {
+		if p.DeadBackend {
+			labels = append(labels, "player-with-dead-backend-on-target-list")
+			break
+		}
+	}
 	baseline := runtime.NumGoroutine()
 	var panicked any
 	var handled bool
@@ -336,6 +350,15 @@ func c26ARun(c c26ACase) verifkit.Result {
 		for i, p := range c.Players {
 			if p.Server == s {
 				idx = append(idx, i)
+			}
+		}
+		return
+	}
+	// a forward can only reach a server through a player whose backend connection is alive
+	healthyOn := func(s int) (n int) {
+		for _, i := range playersOn(s) {
+			if !c.Players[i].DeadBackend {
+				n++
 			}
 		}
 		return
@@ -431,13 +454,13 @@ func c26ARun(c c26ACase) verifkit.Result {
 	case "Forward":
 		if c.A1 == "ALL" || c.A1 == "ONLINE" {
 			for s := range c.Servers {
-				if s != reqServer && len(playersOn(s)) > 0 {
+				if s != reqServer && healthyOn(s) > 0 {
 					expForwardServers = append(expForwardServers, s)
 				}
 			}
 		} else if strings.EqualFold(c.A1, "ALL") || strings.EqualFold(c.A1, "ONLINE") {
 			assert = false
-		} else if s := c.findServer(c.A1); s >= 0 && len(playersOn(s)) > 0 {
+		} else if s := c.findServer(c.A1); s >= 0 && healthyOn(s) > 0 {
 			expForwardServers = append(expForwardServers, s)
 		}
 	case "ForwardToPlayer":
@@ -644,6 +667,13 @@ func c26AGen(t *rapid.T) c26ACase {
 	}
 	c.Requester = rapid.IntRange(0, np-1).Draw(t, "requester")
 	c.Sub = c26ASubs[rapid.IntRange(0, len(c26ASubs)-1).Draw(t, "sub")]
+	if c.Sub == "Forward" {
+		for i := range c.Players {
+			if i != c.Requester && c.Players[i].Server >= 0 && rapid.IntRange(0, 3).Draw(t, "deadBackend") == 0 {
+				c.Players[i].DeadBackend = true
+			}
+		}
+	}
 	vary := func(s string) string {
 		switch rapid.IntRange(0, 3).Draw(t, "case") {
 		case 0:
